@@ -115,6 +115,7 @@ namespace opensmt {
         int zeroes = 0;
         bool is_frac = false;
         bool is_neg = false;
+        bool has_digit = false;
 
         if (flo[0] == '-') {
             flo++;
@@ -122,6 +123,7 @@ namespace opensmt {
         }
 
         for (int i = 0; flo[i] != '\0'; i++) {
+            if (isDigit(flo[i])) { has_digit = true; }
             if (state == 0 && flo[i] == '0') {}
             else if (state == 0 && isPosDig(flo[i])) {
                 nom_l++;
@@ -159,6 +161,8 @@ namespace opensmt {
             else if (state == 5 && isDigit(flo[i])) { state = 5; }
             else { throw strConvException(flo); }
         }
+
+        if (not has_digit) { throw strConvException(flo); } // "", "-", "." and the like are not numbers
 
         if (is_frac) {
             // A fraction needs a non-zero denominator (GMP divides by it when canonicalizing)
